@@ -16,6 +16,10 @@ expressions on which the C05 theorems turn:
   k_pafd_term__<Class>   mkrwt * |tfreq - pfreq|
   k_opv / k_gb_coef / k_gb_st / k_gb_sp                                  (max-type criteria)
   k_evalfn               (obj_wt * obj_trans(x, latent), ineqcv..., eqcv...) with the order of the returned triple
+  k_evaluate_is_vec / k_evaluate_vec_table / k_evaluate_vec_keep / k_evaluate_mat_table / k_evaluate_mat_keep
+                         SelectionProblem._evaluate (the reporting path of pymoo and the hill climbers): the branch test, which
+                         element of the evalfn triple is stored under which key of `out` in the vector and in the matrix branch,
+                         and the filter that decides whether a key is stored (no class may override _evaluate / evalfn)
   k_trans_*              bodies of sel/prob/trans.py
   k_uc / k_uc_pmean      pmean + selection_intensity * sqrt(pvar);  epgc.dot(bvmat[cconfig, :])
   k_embv_acc / k_embv_avg                      avg + tmax ; avg / nrep                (selection problems' _calc_embv)
@@ -451,6 +455,91 @@ def translate(repo, gen_dir):
         "(%s, %s, %s)" % tuple(comp[v.id] for v in r.elts),
         "SelectionProblem.evalfn: " + "; ".join("%s = %s" % (nm, src(P.the_assignment(fn, nm))) for nm in ("obj", "ineqcv", "eqcv")) + "; return " + src(r))
 
+    # ------------------------------------------------------------------ _evaluate: the reporting path (pymoo interface, hill climbers)
+    # which element of the evalfn triple is stored under which key of `out`, in the vector branch and in the matrix branch, the
+    # test that chooses the branch and the filter that decides whether a key is stored at all
+    for f in sorted(os.listdir(os.path.join(repo, D))):
+        if not f.endswith(".py"): continue
+        for node in ast.walk(P.parse_file(repo, D + f)):
+            if isinstance(node, ast.ClassDef):
+                for m in node.body:
+                    if isinstance(m, ast.FunctionDef) and m.name in ("_evaluate", "evalfn") and (f, node.name) != ("SelectionProblem.py", "SelectionProblem"):
+                        raise P.Untranslatable("%s: class %s now defines its own %s: the reporting table no longer describes it" % (f, node.name, m.name))
+    fn = P.find_function(repo, D + "SelectionProblem.py", "SelectionProblem._evaluate")
+    if [a.arg for a in fn.args.args] != ["self", "x", "out"] or fn.args.vararg is None or fn.args.kwarg is None:
+        raise P.Untranslatable("SelectionProblem._evaluate: signature is no longer (self, x, out, *args, **kwargs)")
+    va, kwa = fn.args.vararg.arg, fn.args.kwarg.arg
+    body = body_statements(fn)
+    if len(body) != 1 or not isinstance(body[0], ast.If) or not body[0].orelse:
+        raise P.Untranslatable("SelectionProblem._evaluate: expected a single if / else over the dimension of x")
+    top = body[0]
+    add("k_evaluate_is_vec", [("ndim", "Z")], "bool", P.to_coq(top.test, Z({"x.ndim": "ndim"}), "bool"),
+        "SelectionProblem._evaluate: if %s (vector branch; else: matrix branch)" % src(top.test))
+
+    def report_update(stmts, what):
+        """the single `out.update({key: val for key, val in zip([<keys>], <values>) if <test>})` of a branch -> (keys, values expr, test, val name)"""
+        ups = [s for s in stmts if isinstance(s, ast.Expr)]
+        if len(ups) != 1 or any(not isinstance(s, (ast.Expr, ast.Assign)) for s in stmts):
+            raise P.Untranslatable("SelectionProblem._evaluate (%s): expected assignments and exactly one out.update(...)" % what)
+        c = ups[0].value
+        if not (isinstance(c, ast.Call) and src(c.func) == "out.update" and len(c.args) == 1 and not c.keywords and isinstance(c.args[0], ast.DictComp)):
+            raise P.Untranslatable("SelectionProblem._evaluate (%s): %s is not out.update({... for ...})" % (what, src(c)))
+        if stmts[-1] is not ups[0]:
+            raise P.Untranslatable("SelectionProblem._evaluate (%s): statements after out.update(...)" % what)
+        dc = c.args[0]
+        if len(dc.generators) != 1: raise P.Untranslatable("SelectionProblem._evaluate (%s): %s" % (what, src(dc)))
+        g = dc.generators[0]
+        ok = (isinstance(dc.key, ast.Name) and isinstance(dc.value, ast.Name) and isinstance(g.target, ast.Tuple) and [src(e) for e in g.target.elts] == [dc.key.id, dc.value.id]
+              and dc.key.id != dc.value.id and not g.is_async and len(g.ifs) == 1 and isinstance(g.iter, ast.Call) and src(g.iter.func) == "zip" and len(g.iter.args) == 2
+              and not g.iter.keywords and isinstance(g.iter.args[0], ast.List)
+              and all(isinstance(e, ast.Constant) and isinstance(e.value, str) and e.value.isalnum() for e in g.iter.args[0].elts))
+        if not ok: raise P.Untranslatable("SelectionProblem._evaluate (%s): %s is not {key: val for key, val in zip([<strings>], <values>) if <test>}" % (what, src(dc)))
+        return [e.value for e in g.iter.args[0].elts], g.iter.args[1], g.ifs[0], dc.value.id
+
+    def assigned_in(stmts, name, what):
+        a = [s for s in stmts if isinstance(s, ast.Assign) and len(s.targets) == 1 and src(s.targets[0]) == name]
+        if len(a) != 1: raise P.Untranslatable("SelectionProblem._evaluate (%s): expected exactly one assignment to %s, found %d" % (what, name, len(a)))
+        return a[0].value
+
+    def table(pairs):
+        return "[" + "; ".join('("%s"%%string, %d%%nat)' % (k, i) for k, i in pairs) + "]"
+
+    # vector branch
+    keys, vals, test, vname = report_update(top.body, "vector branch")
+    if not isinstance(vals, ast.Name) or src(assigned_in(top.body, vals.id, "vector branch")) != "self.evalfn(x, *%s, **%s)" % (va, kwa):
+        raise P.Untranslatable("SelectionProblem._evaluate (vector branch): the values reported are not self.evalfn(x, *%s, **%s)" % (va, kwa))
+    if len([s for s in top.body if isinstance(s, ast.Assign)]) != 1:
+        raise P.Untranslatable("SelectionProblem._evaluate (vector branch): more than one assignment")
+    add("k_evaluate_vec_table", [], "list (string * nat)", table([(k, i) for i, k in enumerate(keys)]),
+        "SelectionProblem._evaluate (x.ndim == 1): %s = %s; %s  [key, index into the evalfn triple]" % (vals.id, src(assigned_in(top.body, vals.id, "vector branch")), src(top.body[-1])))
+    add("k_evaluate_vec_keep", [("n", "Z")], "bool", P.to_coq(bind(test, {"len(%s)" % vname: "n"}), Z({"n": "n"}), "bool"),
+        "SelectionProblem._evaluate (x.ndim == 1): ... if %s  [n = len(%s)]" % (src(test), vname))
+    # matrix branch
+    keys, vals, test, vname = report_update(top.orelse, "matrix branch")
+    if not (isinstance(vals, ast.List) and all(isinstance(e, ast.Name) for e in vals.elts) and len(vals.elts) == len(keys)):
+        raise P.Untranslatable("SelectionProblem._evaluate (matrix branch): zip([keys], %s): expected a list of as many plain names" % src(vals))
+    rows = [s for s in top.orelse if isinstance(s, ast.Assign) and src(s.value) == "[self.evalfn(v, *%s, **%s) for v in x]" % (va, kwa)]
+    if len(rows) != 1 or len(rows[0].targets) != 1 or not isinstance(rows[0].targets[0], ast.Name) or rows[0] is not top.orelse[0]:
+        raise P.Untranslatable("SelectionProblem._evaluate (matrix branch): expected first `<rows> = [self.evalfn(v, *%s, **%s) for v in x]`" % (va, kwa))
+    rname = rows[0].targets[0].id
+    if len([s for s in top.orelse if isinstance(s, ast.Assign)]) != 1 + len(keys):
+        raise P.Untranslatable("SelectionProblem._evaluate (matrix branch): unexpected number of assignments")
+    pairs, quotes = [], []
+    for k, e in zip(keys, vals.elts):
+        a = assigned_in(top.orelse, e.id, "matrix branch")
+        ok = (isinstance(a, ast.Call) and src(a.func) == "numpy.stack" and len(a.args) == 1 and not a.keywords and isinstance(a.args[0], ast.ListComp)
+              and len(a.args[0].generators) == 1 and not a.args[0].generators[0].ifs and src(a.args[0].generators[0].iter) == rname
+              and isinstance(a.args[0].generators[0].target, ast.Name) and isinstance(a.args[0].elt, ast.Subscript)
+              and src(a.args[0].elt.value) == a.args[0].generators[0].target.id and isinstance(a.args[0].elt.slice, ast.Constant)
+              and isinstance(a.args[0].elt.slice.value, int) and not isinstance(a.args[0].elt.slice.value, bool) and 0 <= a.args[0].elt.slice.value <= 2)
+        if not ok: raise P.Untranslatable("SelectionProblem._evaluate (matrix branch): %s = %s is not numpy.stack([e[<0|1|2>] for e in %s])" % (e.id, src(a), rname))
+        pairs.append((k, a.args[0].elt.slice.value)); quotes.append("%s = %s" % (e.id, src(a)))
+    add("k_evaluate_mat_table", [], "list (string * nat)", table(pairs),
+        "SelectionProblem._evaluate (else): %s = %s; %s; %s  [key, index into the evalfn triple of each row]" % (rname, src(rows[0].value), "; ".join(quotes), src(top.orelse[-1])))
+    add("k_evaluate_mat_keep", [("nrow", "Z"), ("ncol", "Z")], "bool",
+        P.to_coq(bind_opt(test, {"%s.shape[0]" % vname: "nrow", "%s.shape[1]" % vname: "ncol", "len(%s)" % vname: "nrow"}), Z({"nrow": "nrow", "ncol": "ncol"}), "bool"),
+        "SelectionProblem._evaluate (else): ... if %s  [nrow, ncol = %s.shape]" % (src(test), vname))
+
     # ------------------------------------------------------------------ transformations of sel/prob/trans.py
     T = D + "trans.py"
     LV = {"latentvec": "latentvec", "decnvec": "decnvec", "latentvec_wt": "latentvec_wt"}
@@ -569,7 +658,7 @@ def translate(repo, gen_dir):
     for nm, (ty, members) in lists.items():
         tail.append("Definition %s : list (%s) :=\n  [%s].\n" % (nm, ty, ";\n   ".join(members)))
     text = (P.HEADER % "harness/translate/c05_kernel.py") + \
-        "From Coq Require Import ZArith QArith Bool List PrimFloat.\nFrom PV Require Import Lib.Common Lib.FloatK.\nImport ListNotations.\n\n" + "\n".join(defs + tail)
+        "From Coq Require Import String.\nFrom Coq Require Import ZArith QArith Bool List PrimFloat.\nFrom PV Require Import Lib.Common Lib.FloatK.\nImport ListNotations.\n\n" + "\n".join(defs + tail)
     path = os.path.join(gen_dir, "C05_Kernel.v")
     P.write_if_changed(path, text)
     return {"file": "Gen/C05_Kernel.v", "definitions": len(defs), "sha256": hashlib.sha256(text.encode()).hexdigest()[:16]}
